@@ -51,5 +51,9 @@ REGISTRY = {
                     "inlining walk with the carried set of defined names; TLC checks once/all/precedence for every legal hierarchy of 3 classes (public/private, ordered base lists, method subsets, optionally "
                     "split over two modules) and for 4-class diamonds; the 2.8k hierarchies are run and C17_Trace judges member multiplicity, winning definition, sub clause (no private names, public bases in order) and imports.",
             "ref": "DESIGN.md section 7 C17", "note": BASE_NOTE + " Known finding: private diamonds are inlined depth first.", "technique": TECH},
+    "C15": {"text": "spec/Discover.tla models file discovery as one Visit step per file with the directory-segment filter and TLC checks Off/On/order-freedom for every small tree (one filtered "
+                    "location, optionally one look-alike) under every visiting order, and for the tree that contains every location of depth <= 2 over 8 directory names x 4 file names; the trees are built "
+                    "on disk (each its own root), run with and without -tr, and C15_Trace judges per file: presence in JSON and stubs under both settings and byte-identity of unaffected stubs.",
+            "ref": "DESIGN.md section 7 C15", "note": BASE_NOTE, "technique": TECH},
 }
 NOT_APPLICABLE = {}
